@@ -410,6 +410,35 @@ fill_bytes (uint8_t *p, size_t n, uint64_t seed, pixman_format_code_t fmt)
     for (; i < n; i++) p[i] = (uint8_t)sim_splitmix (&x);
 }
 
+/* Pixel-granular content: short runs (1-5 pixels) of all-zero, all-one, opaque-with-random-colour
+ * and random pixels, so that the "this group of four is entirely opaque / entirely transparent /
+ * mixed" shortcuts of the vector loops meet every mixture at every position. */
+static void
+fill_runs (uint8_t *p, size_t n, uint64_t seed, pixman_format_code_t fmt)
+{
+    uint64_t x = seed * 0x9e3779b97f4a7c15ull + 777;
+    size_t unit = (size_t)PIXMAN_FORMAT_BPP (fmt) / 8, i = 0;
+    uint32_t amask = fmt_alpha_mask (fmt);
+    while (i + unit <= n)
+    {
+	uint64_t r = sim_splitmix (&x);
+	int len = 1 + (int)(r >> 60) % 5, kind = (int)(r >> 56) & 7, k;
+	for (k = 0; k < len && i + unit <= n; k++, i += unit)
+	{
+	    uint32_t v = (uint32_t)sim_splitmix (&x);
+	    switch (kind)
+	    {
+	    case 0: case 1: v = 0; break;
+	    case 2: case 3: v = 0xffffffffu; break;
+	    case 4: case 5: v |= amask; break;       /* opaque, any colour (any value when there is no alpha) */
+	    default: break;
+	    }
+	    memcpy (p + i, &v, unit);
+	}
+    }
+    for (; i < n; i++) p[i] = (uint8_t)sim_splitmix (&x);
+}
+
 /* geometry of a bits image from the op arguments */
 typedef struct { int fmt_idx, w, h, stride, neg, flags; unsigned misalign; uint64_t fillseed; pixman_format_code_t fmt; int extra_rows; } bits_geom_t;
 
@@ -1240,7 +1269,10 @@ step_draw_op (machine_t *m, const sim_op_t *op, const int64_t *a, int n, mstep_t
 	mslot_t *s = &m->img[slot];
 	if (!img_ok (m, slot) || s->kind != MOP_BITS || !s->lowest) return;
 	st->executed = 1;
-	fill_bytes (s->lowest, s->storage, (uint64_t)A (1), s->fmt);
+	if (sim_mod (A (2), 2) == 1 && PIXMAN_FORMAT_BPP (s->fmt) <= 32 && PIXMAN_FORMAT_BPP (s->fmt) >= 8)
+	    fill_runs (s->lowest, s->storage, (uint64_t)A (1), s->fmt);
+	else
+	    fill_bytes (s->lowest, s->storage, (uint64_t)A (1), s->fmt);
 	return;
     }
     }
